@@ -194,6 +194,7 @@ func (g *dgen) stmt(depth int) {
 	case r < 80:
 		v := fmt.Sprintf("i%d", g.nid())
 		kind := "loop"
+		closeOuter := false
 		if g.rng.Intn(3) == 0 && !g.twin {
 			// delegation in the post statement (only the YieldFrom spelling is a simple statement)
 			g.line("for %s := 0; %s < 2; YFROM(§leaf(1, %d)) {", v, v, g.nid()*1000)
@@ -202,7 +203,17 @@ func (g *dgen) stmt(depth int) {
 			kind = "loop-ypost"
 		} else {
 			bound := 1 + g.rng.Intn(3)
-			switch g.rng.Intn(7) {
+			switch g.rng.Intn(9) {
+			case 7, 8:
+				// no init clause: the cursor lives outside the loop (a queue being drained); when this loop is the
+				// first statement of an enclosing loop body the optimiser shares ONE For value between the passes
+				g.line("q%s := 0", v)
+				g.line("for r%s := 1; r%s <= 2; r%s++ {", v, v, v)
+				g.ind++
+				g.line("for ; q%s < r%s*%d; q%s++ {", v, v, bound, v)
+				g.line("\ttr.R(%d, q%s)", g.nid(), v)
+				closeOuter = true
+				g.feats["deleg:loop-without-init"] = true
 			case 0:
 				// no condition, with a post statement: the loop is left by a break in front of the first yield
 				g.line("for %s := 0; ; %s++ {", v, v)
@@ -236,6 +247,11 @@ func (g *dgen) stmt(depth int) {
 		g.block(depth + 1)
 		g.ctx = g.ctx[:len(g.ctx)-1]
 		g.line("}")
+		if closeOuter {
+			g.line("tr.E(%d)", g.nid())
+			g.ind--
+			g.line("}")
+		}
 		g.feats["deleg:in-loop"] = true
 	case r < 84 && !g.twin:
 		// delegation in the init clause of a loop / switch (only the YieldFrom spelling is a simple statement)
